@@ -1,5 +1,6 @@
 """C12 -- output buffering is bounded; producers are paused and always released."""
 
+import errno
 import random
 
 from vf import core
@@ -29,7 +30,7 @@ def required_counters(tier):
         "producer-waited", "notify:with-waiter", "notify:no-waiter", "disconnect-raced-wait",
         "write_soon_sampled", "drain:always", "drain:stall-resume", "drain:never", "drain:disconnect:close",
         "drain:disconnect:reset", "drain:disconnect:shutdown_wr", "released-after-disconnect", "runs:forced",
-        "runs:random", "runs:pct", "mark:0", "mark:1", "mark:64", "mark:4096",
+        "runs:random", "runs:pct", "mark:0", "mark:1", "mark:64", "mark:4096", "send-fault-runs", "send-fault-hit-paused-producer",
     ]
 
 
@@ -66,7 +67,12 @@ def gen_scenario(rng):
     c = {"requests": reqs, "sndbuf": sndbuf, "reader": reader, "pingpong": rng.random() < 0.3}
     if rng.random() < 0.3:
         c["send_caps"] = rng.choice([[100, 0], [37], [0, -1]])
-    return {"adj": adj, "sndbuf": sndbuf, "conns": [c]}
+    scn = {"adj": adj, "sndbuf": sndbuf, "conns": [c]}
+    if mode in ("always", "stall-resume") and rng.random() < 0.35:
+        # the connection dies under the server instead: one send() fails with an errno that is not
+        # a plain disconnect (the channel is then closed through will_close / handle_close)
+        scn["faults"] = {"0:send:%d" % rng.randrange(1, 14): rng.choice([errno.ETIMEDOUT, errno.EHOSTUNREACH, errno.ENOBUFS, errno.ECONNRESET])}
+    return scn
 
 
 def directed():
@@ -77,6 +83,12 @@ def directed():
                        {"mode": "disconnect", "after": 300, "how": "close"}, {"mode": "stall", "after": 300, "resume": 5.0}):
             out.append({"adj": {"threads": 1, "outbuf_high_watermark": mark, "send_bytes": 1}, "sndbuf": 256,
                         "conns": [{"requests": [{"n": 900, "k": "gen", "w": base + 1}, {"n": 10, "k": "cl"}], "sndbuf": 256, "reader": reader}]})
+    # a send() that fails right after the send that brought the backlog back under the mark
+    for mark, sndbuf, k in ((64, 256, 3), (64, 256, 4), (4096, 2048, 3), (4096, 2048, 4)):
+        out.append({"adj": {"threads": 1, "outbuf_high_watermark": mark, "send_bytes": 1}, "sndbuf": sndbuf,
+                    "conns": [{"requests": [{"n": 3 * mark + 700, "k": "write", "w": mark + 300}, {"n": 10, "k": "cl"}], "sndbuf": sndbuf,
+                               "reader": {"mode": "always"}}],
+                    "faults": {"0:send:%d" % k: errno.ETIMEDOUT}})
     return out
 
 
@@ -88,7 +100,7 @@ def plan(tier, seed):
         specs.append({"mode": "random", "seed": seed * 1019 + i, "n": per})
     ds = directed()
     if tier == "quick":
-        ds = [ds[0], ds[1], ds[6], ds[11]]
+        ds = [ds[0], ds[1], ds[6], ds[11], ds[12], ds[14]]
     parts = 4
     for scn in ds:
         for p in range(parts):
@@ -111,6 +123,8 @@ def install_probe():
 
     def write_soon(self, data):
         w = shim.W()
+        if w is not None and data:
+            w.__dict__.setdefault("c12_channels", {})[id(self)] = self
         n = orig_write_soon(self, data)
         if w is not None and data:
             st = w.__dict__.setdefault("c12", {"interims": 0, "max_pending": 0, "max_write": 0, "viol": None, "samples": 0})
@@ -178,6 +192,13 @@ def judge(scn, o, acc):
             for cnd in w.conditions:
                 if id(cnd) == t.blocked_on[1] and cnd.label.startswith("channel.py"):
                     producer_asleep = True
+    if producer_asleep:
+        # whoever closes the channel (client disconnect or a failing send) must release the producer
+        for chn in getattr(w, "c12_channels", {}).values():
+            if not chn.connected:
+                out.append(("producer-asleep-on-closed-channel",
+                            "producer still paused at quiescence although its channel has been closed "
+                            f"(pending {chn.total_outbufs_len}, faults {scn.get('faults')})"))
     mode = reader.get("mode")
     disconnected = res.get("disconnected")
     stalled_forever = res.get("stalled")
@@ -213,7 +234,7 @@ def judge(scn, o, acc):
             out.append(("output-corrupt", f"response {j}: {bad}"))
         if r.get("complete") and len(r["body"]) != reqs[j]["n"]:
             out.append(("output-corrupt", f"response {j}: length {len(r['body'])} != {reqs[j]['n']}"))
-    if werr and not (disconnected or stalled_forever or not res.get("done")):
+    if werr and not (disconnected or stalled_forever or not res.get("done") or scn.get("faults")):
         out.append(("wire-unparseable", werr))
     return out
 
@@ -237,6 +258,10 @@ def run_one(acc, scn, strat, label):
         else:
             acc.count("drain:disconnect:" + rd["how"])
         c = o.counters
+        if scn.get("faults"):
+            acc.count("send-fault-runs")
+            if c.get("cond-wait:channel.py:__init__") and any(k.startswith("fault-injected:") for k in c):
+                acc.count("send-fault-hit-paused-producer")
         if c.get("cond-wait:channel.py:__init__"):
             acc.count("producer-waited")
             if o.results[0].get("disconnected"):
